@@ -279,6 +279,29 @@ def _fc(net, units=10):
     return True
 
 
+# convolutions with constant weights and bias that stay on the CPU (stride 4 is not supported by the NPU)
+inst("cpu_conv_s4")(lambda n: _conv_like(n, "conv", 3, 4, PAD_SAME, "NONE"))
+inst("cpu_dw_s4", "t")(lambda n: _conv_like(n, "dw", 3, 4, PAD_SAME, "RELU"))
+
+
+@inst("cpu_conv_s4_pair")
+def _cpu_conv_s4_pair(net):
+    """two CPU-resident convolutions in sequence that share the weight AND the bias tensor"""
+    if not _hw4(net) or net.T(net.cur)["shape"][3] > 64:
+        return False
+    c = net.T(net.cur)["shape"][3]
+    if not _conv_like(net, "conv", 3, 4, PAD_SAME, "NONE", cout=c):
+        return False
+    o = net.ops[-1]
+    x = net.cur
+    t = net.T(x)
+    n, h, w, _ = t["shape"]
+    oh, ow = _out_hw(h, 3, 4, 1, PAD_SAME), _out_hw(w, 3, 4, 1, PAD_SAME)
+    y = net.act([n, oh, ow, c], t["dtype"])
+    net.op("CONV_2D", [x, o["inputs"][1], o["inputs"][2]], [y], ("Conv2DOptions", dict(o["opts"][1])), version=o["version"])
+    return True
+
+
 @inst("fc_fc_sq")
 def _fc_fc_sq(net):
     """FULLY_CONNECTED to 16 units followed by a square (16 -> 16) one: the weight matrix has the same shape before and after
@@ -746,7 +769,7 @@ SIGMA_Q = [
     "conv1x1", "conv3x3", "conv3x3s2", "conv3x3v_relu6", "conv3x3d2", "dw3x3", "dw3x3s2", "fc", "maxpool2x2",
     "avgpool2x2", "avgpool3x3same", "add_res", "add_const", "add_scalar", "add_bcast_h", "sub_const", "mul_const",
     "min_const", "relu", "leaky_relu", "logistic", "tanh", "hard_swish", "reshape", "concat", "split", "strided_slice",
-    "pad_hw", "pad_c", "mean", "resize_nn2", "quantize", "tconv_s2", "softmax", "cpu_d2s", "cpu_custom", "conv_dynw", "cpu_neg", "tap", "branch_cpu", "branch_npu", "conv_dynw_nobias", "cpu_custom_opt", "conv3x3_c1", "slice", "conv_again", "conv_pair_shared", "reshape_requant", "fc_fc_sq", "conv_c3_sq",
+    "pad_hw", "pad_c", "mean", "resize_nn2", "quantize", "tconv_s2", "softmax", "cpu_d2s", "cpu_custom", "conv_dynw", "cpu_neg", "tap", "branch_cpu", "branch_npu", "conv_dynw_nobias", "cpu_custom_opt", "conv3x3_c1", "slice", "conv_again", "conv_pair_shared", "reshape_requant", "fc_fc_sq", "conv_c3_sq", "cpu_conv_s4", "cpu_conv_s4_pair",
 ]
 SIGMA_T = SIGMA_Q + [n for n, (_, tags) in INSTANCES.items() if "t" in tags]
 SIGMA_C = [n for n, (_, tags) in INSTANCES.items() if "c" in tags]
